@@ -22,10 +22,10 @@ def r2(x: float) -> float:
     return round(x, 2)
 
 
-def gen_prices(rng, n: int, regime: str) -> List[Dict]:
+def gen_prices(rng, n: int, regime: str, base_prices=(1.5, 20.0, 100.0, 431.27, 9000.0)) -> List[Dict]:
     """OHLCV rows on a 0.01 grid with low <= open, close <= high, volume >= 0."""
     rows = []
-    price = r2(rng.choice([1.5, 20.0, 100.0, 431.27, 9000.0]) * rng.uniform(0.8, 1.2))
+    price = r2(rng.choice(list(base_prices)) * rng.uniform(0.8, 1.2))
     sub = regime
     for i in range(n):
         if regime == "mixed" and (i % 7 == 0):
